@@ -1480,6 +1480,21 @@ class DFA(fa.FA):
         # Precomputations and setup
         include_input = not strict
         sorted_symbols = sorted(self.input_symbols, reverse=reverse, key=key)
+        if not sorted_symbols:
+            # Over an empty alphabet the empty word is the only word there is
+            if input_str is None:
+                wanted = True
+            elif input_str == "":
+                wanted = include_input
+            else:
+                wanted = reverse
+            if (
+                wanted
+                and min_length <= 0
+                and self.initial_state in self.final_states
+            ):
+                yield ""
+            return
         symbol_succ: Dict[str, Optional[str]] = {
             symbol_a: symbol_b for symbol_a, symbol_b in pairwise(sorted_symbols)
         }
